@@ -117,7 +117,7 @@ func c19gEval(info *types.Info, e ast.Expr, atom func(ast.Expr) (int, bool)) int
 // c19gIsBranch reports whether block b ends in a boolean condition that selects between
 // Succs[0] (true) and Succs[1] (false), and returns it. Tagged switches and range heads are
 // not boolean branches.
-func c19gIsBranch(b *cfg.Block) (ast.Expr, bool) {
+func c19gIsBranch(b *cfg.Block, tagless map[*ast.CaseClause]bool) (ast.Expr, bool) {
 	if len(b.Succs) != 2 || len(b.Nodes) == 0 {
 		return nil, false
 	}
@@ -129,11 +129,29 @@ func c19gIsBranch(b *cfg.Block) (ast.Expr, bool) {
 	case cfg.KindIfThen, cfg.KindForBody:
 		return e, true
 	case cfg.KindSwitchCaseBody:
-		if sw, ok := b.Succs[0].Stmt.(*ast.SwitchStmt); ok && sw.Tag == nil {
+		// go/cfg hangs the case body on its CaseClause; only `switch { case cond: }` compares with true
+		if cc, ok := b.Succs[0].Stmt.(*ast.CaseClause); ok && tagless[cc] {
 			return e, true
 		}
 	}
 	return nil, false
+}
+
+// c19gTaglessCases collects the case clauses of the `switch { … }` statements (no tag, no init
+// restrictions) under root: their case expressions are boolean conditions.
+func c19gTaglessCases(root ast.Node) map[*ast.CaseClause]bool {
+	out := map[*ast.CaseClause]bool{}
+	ast.Inspect(root, func(n ast.Node) bool {
+		if sw, ok := n.(*ast.SwitchStmt); ok && sw.Tag == nil {
+			for _, s := range sw.Body.List {
+				if cc, ok := s.(*ast.CaseClause); ok {
+					out[cc] = true
+				}
+			}
+		}
+		return true
+	})
+	return out
 }
 
 // c19gPath is the state carried along one path.
@@ -168,13 +186,16 @@ func (p *c19gPath) clone() *c19gPath {
 }
 
 type c19gWalker struct {
-	info *types.Info
+	info    *types.Info
+	tagless map[*ast.CaseClause]bool // from c19gTaglessCases(function body)
 	// atom evaluates client atoms under the current path state (bool locals are handled by the walker)
 	atom func(p *c19gPath, e ast.Expr) (int, bool)
 	// node is called for every non-condition node in execution order
 	node func(p *c19gPath, n ast.Node)
 	// cond is called when a boolean branch is taken (after pruning)
 	cond func(p *c19gPath, e ast.Expr, taken bool)
+	// halt: the path is discharged after this node (asked after node())
+	halt func(p *c19gPath, n ast.Node) bool
 	// stop: the path ends when it is about to enter block b (loop head / loop exit of the analysed loop)
 	stop func(b *cfg.Block) (string, bool)
 	// end is called once per finished path: how = "return" | "end" | the string given by stop
@@ -186,13 +207,15 @@ type c19gWalker struct {
 
 func (w *c19gWalker) evalIn(p *c19gPath, e ast.Expr) int {
 	return c19gEval(w.info, e, func(x ast.Expr) (int, bool) {
+		if w.atom != nil {
+			if v, ok := w.atom(p, x); ok {
+				return v, true // the client's atoms win over the tracked value of a local
+			}
+		}
 		if id, ok := x.(*ast.Ident); ok {
 			if v, ok := p.bl[w.info.Uses[id]]; ok {
 				return v, true
 			}
-		}
-		if w.atom != nil {
-			return w.atom(p, x)
 		}
 		return c19gU, false
 	})
@@ -261,7 +284,7 @@ func (w *c19gWalker) walkFrom(b *cfg.Block, i int, p *c19gPath) {
 		return
 	}
 	p.visits[b]++
-	condExpr, isBranch := c19gIsBranch(b)
+	condExpr, isBranch := c19gIsBranch(b, w.tagless)
 	for ; i < len(b.Nodes); i++ {
 		n := b.Nodes[i]
 		if isBranch && i == len(b.Nodes)-1 {
@@ -271,6 +294,9 @@ func (w *c19gWalker) walkFrom(b *cfg.Block, i int, p *c19gPath) {
 		w.effects(p, n)
 		if w.node != nil {
 			w.node(p, n)
+		}
+		if w.halt != nil && w.halt(p, n) {
+			return
 		}
 		if r, ok := n.(*ast.ReturnStmt); ok {
 			w.end(p, "return", r)
